@@ -400,7 +400,7 @@ func (vr *variableResolver) resolve(ctx *ExecutionContext) (*Value, error) {
 							return AsValue(nil), nil
 						}
 						if sv.val.Type().AssignableTo(current.Type().Key()) && sv.val.Type().Comparable() {
-							current = current.MapIndex(sv.val)
+							current = mapIndex(current, sv.val)
 						} else {
 							return AsValue(nil), nil
 						}
